@@ -119,11 +119,11 @@ func c07DescParam(fn *ssa.Function) *ssa.Parameter {
 }
 
 // everyIteration: every path from the loop body's entry back to the header executes `in`.
-func c07EveryIteration(body Edge, header *ssa.BasicBlock, in ssa.Instruction) bool {
-	if in == nil {
+func c07EveryIteration(body Edge, header *ssa.BasicBlock, ins ...ssa.Instruction) bool {
+	if len(ins) == 0 {
 		return false
 	}
-	return !reach(body.To, 0, header.Instrs[0], newCut().Instr(in))
+	return !reach(body.To, 0, header.Instrs[0], newCut().Instr(ins...))
 }
 
 // ---------------------------------------------------------------- R1: index
@@ -221,14 +221,14 @@ func c07R1Index(c *Ctx) {
 			return true
 		}
 		isSuccKey := func(v ssa.Value) bool { return c07IsKeyOf(v, isElem) }
-		var addS, addP ssa.CallInstruction
+		var addS, addP []ssa.Instruction
 		for _, call := range Calls(fn, func(string) bool { return true }) {
 			if !c07SetMethod(call, "Add") || !loop.Contains(call.(ssa.Instruction)) {
 				continue
 			}
 			a := call.Common().Args
 			if succSet != nil && SameValue(a[0], succSet) && isSuccKey(a[1]) {
-				addS = call
+				addS = append(addS, call.(ssa.Instruction))
 			}
 			if isNodeKey(a[1]) {
 				okRoots := true
@@ -243,8 +243,9 @@ func c07R1Index(c *Ctx) {
 					if n := c07IsSetNew(r); n != nil {
 						stored := false
 						AllInstrs(fn, func(in ssa.Instruction) {
-							if mu, ok := in.(*ssa.MapUpdate); ok && c07MapOf(mu.Map, "predecessors") && isSuccKey(mu.Key) && strip(mu.Value) == ssa.Value(n) &&
-								MustPassBetween(n, call.(ssa.Instruction), newCut().Instr(mu)) {
+							// the fresh set is stored under key(successor) before the iteration ends (order w.r.t. Add is irrelevant: sets are references)
+							if mu, ok := in.(*ssa.MapUpdate); ok && c07MapOf(mu.Map, "predecessors") && isSuccKey(mu.Key) && SameValue(mu.Value, n) &&
+								!reach(n.Block(), instrIndex(n)+1, loop.Header.Instrs[0], newCut().Instr(mu)) {
 								stored = true
 							}
 						})
@@ -255,14 +256,14 @@ func c07R1Index(c *Ctx) {
 					okRoots = false
 				}
 				if okRoots {
-					addP = call
+					addP = append(addP, call.(ssa.Instruction))
 				}
 			}
 		}
-		okA := addS != nil && c07EveryIteration(body, loop.Header, addS.(ssa.Instruction))
+		okA := len(addS) > 0 && c07EveryIteration(body, loop.Header, addS...)
 		c.Check(R, tn+"|successor-edge-every-iteration", blockPos(body.To), okA,
 			ifelse(okA, "successors[key(node)].Add(key(successor)) runs in every iteration", "an iteration can finish without recording key(successor) in successors[key(node)]: Remove would leave node in that successor's predecessor set (extra after delete)"))
-		okB := addP != nil && c07EveryIteration(body, loop.Header, addP.(ssa.Instruction))
+		okB := len(addP) > 0 && c07EveryIteration(body, loop.Header, addP...)
 		c.Check(R, tn+"|predecessor-edge-every-iteration", blockPos(body.To), okB,
 			ifelse(okB, "predecessors[key(successor)].Add(key(node)) runs in every iteration on the stored set (created and stored when absent)", "an iteration can finish without adding key(node) to the stored predecessors[key(successor)] set: Predecessors(successor) omits node"))
 	}
@@ -328,14 +329,27 @@ func c07R1Remove(c *Ctx) {
 		}
 		return true
 	}
-	var del ssa.CallInstruction
+	var dels []ssa.Instruction
 	var entry ssa.Value
+	skipOK := newCut() // an absent / nil entry has nothing to unlink
 	for _, call := range Calls(fn, func(string) bool { return true }) {
 		if c07SetMethod(call, "Delete") && loop.Contains(call.(ssa.Instruction)) && isEntry(call.Common().Args[0]) && isNodeKey(call.Common().Args[1]) {
-			del, entry = call, call.Common().Args[0]
+			dels = append(dels, call.(ssa.Instruction))
+			entry = call.Common().Args[0]
+			skipOK.Instr(call.(ssa.Instruction))
+			ne, _, _ := NilTests(fn, Aliases(entry))
+			skipOK.Edges(ne...)
+			if ex, isE := strip(entry).(*ssa.Extract); isE {
+				for _, r := range *ex.Tuple.Referrers() {
+					if e1, is1 := r.(*ssa.Extract); is1 && e1.Index == 1 {
+						_, fe := BoolTests(fn, Aliases(e1))
+						skipOK.Edges(fe...)
+					}
+				}
+			}
 		}
 	}
-	okD := del != nil && c07EveryIteration(body, loop.Header, del.(ssa.Instruction))
+	okD := len(dels) > 0 && !reach(body.To, 0, loop.Header.Instrs[0], skipOK)
 	c.Check(R, tn+"|unlink-every-iteration", blockPos(body.To), okD,
 		ifelse(okD, "predecessors[successorKey].Delete(key(node)) runs in every iteration", "an iteration can finish without deleting key(node) from predecessors[successorKey]: Predecessors(successor) keeps reporting the removed node"))
 	// delete(m.predecessors, k): only the current key, only when its set is empty
@@ -460,11 +474,17 @@ func c07R1Predecessors(c *Ctx) {
 	}
 	// the result is that slice
 	okRes := true
-	for _, a := range RetAtoms(fn, 0) {
-		if k, isK := a.Val.(*ssa.Const); isK && k.Value == nil {
+	for _, r := range Returns(fn) {
+		if !ReachableFromEntry(r) || len(r.Results) == 0 {
 			continue
 		}
-		if a.Val != ssa.Value(app.(*ssa.Call)) {
+		for _, v := range Roots(r.Results[0]) {
+			if k, isK := v.(*ssa.Const); isK && k.Value == nil {
+				continue
+			}
+			if call, isCall := v.(*ssa.Call); isCall && ct.instrs[call] {
+				continue
+			}
 			okRes = false
 		}
 	}
